@@ -136,6 +136,8 @@ pub fn generate(ch: &mut Chunker, prop: &str, thorough: bool, seed: u64, replays
         "CSTEPS" => crate::steps::gen_columns_steps(ch, &mut r, scale),
         "FFSTEPS" => crate::steps::gen_ff_steps(ch, &mut r, scale),
         "OSTEPS" => crate::steps::gen_opt_steps(ch, &mut r, scale),
+        "WSTEPS" => crate::steps::gen_words_steps(ch, &mut r, scale),
+        "BSTEPS" => crate::steps::gen_break_steps(ch, &mut r, scale),
         "C10" => gen_c10(ch, &mut r, thorough, scale),
         "C11" => gen_c11(ch, &mut r, thorough, scale),
         "C12" => gen_c12(ch, &mut r, thorough, scale),
